@@ -1,5 +1,6 @@
-(* Proofs for C18: from_json (json_text (to_json v)) = v for every value of the grammar whose classes resolve
-   (module-level classes with well-formed names), by nested induction over lists of values. *)
+(* Proofs for C18: from_json (json_text (to_json v)) = v for every value of the grammar whose classes are not function-local
+   and are named by their own tag (the C19 decision table resolves "<module>.<qualified name>" to the class), by nested
+   induction over lists of values.  The link to the translated chain is C19's theorem [chain_obj]. *)
 From Coq Require Import List ZArith Bool Lia PeanoNat.
 From Krrood Require Import Base.Sx Json.JsonVal Json.ResolveSpec Json.SerializerSpec Gen.JsonResolve Json.Resolve Json.ResolveProofs Json.Serializer.
 Import ListNotations.
@@ -19,6 +20,10 @@ Proof.
   apply str_eqb_eq in H1. apply strs_eqb_eq in H2. apply kind_eqb_eq in H3. apply Z.eqb_eq in H4.
   destruct a, b; simpl in *; congruence.
 Qed.
+Lemma strs_eqb_refl a : strs_eqb a a = true.
+Proof. induction a as [|x a IH]; simpl; [reflexivity|]. now rewrite str_eqb_refl, IH. Qed.
+Lemma cls_eqb_refl c : cls_eqb c c = true.
+Proof. unfold cls_eqb. rewrite str_eqb_refl, strs_eqb_refl, Z.eqb_refl. destruct (c_kind c); reflexivity. Qed.
 
 (* ---- the world's import machinery behaves as documented (so the C19 lemmas about the translated chain apply) *)
 Lemma w_import_documented w : importer_documented str (w_import w).
@@ -30,29 +35,43 @@ Proof.
     + destruct (module_exists w (c :: s)); [discriminate|]. intros H. left. congruence.
 Qed.
 Lemma w_getattr_documented w : getattr_documented str cls (w_getattr w).
-Proof. intros m n e. unfold w_getattr. destruct (lookup w m n); congruence. Qed.
+Proof. intros o n e. unfold w_getattr. destruct o; match goal with |- context [lookup ?a ?b ?c] => destruct (lookup a b c) end; congruence. Qed.
 Lemma w_issubclass_documented : issubclass_documented cls w_is_type w_issubclass.
 Proof. split; [intros c e H; discriminate | intros c _; eexists; reflexivity]. Qed.
 
-Lemma lookup_module_exists w m n c : lookup w m n = Some c -> module_exists w m = true.
-Proof.
-  unfold lookup, module_exists. intros H. apply find_some in H as [Hin Hc].
-  apply existsb_exists. exists c. split; [assumption|].
-  apply andb_true_iff in Hc as [Hc _]. apply andb_true_iff in Hc as [_ Hc]. exact Hc.
-Qed.
-
-Lemma full_name_split c : full_name c = c_mod c ++ 46 :: cname c.
+Lemma full_name_split c : full_name c = c_mod c ++ 46 :: cqualname c.
 Proof. unfold full_name, get_full_class_name. rewrite <- app_assoc. reflexivity. Qed.
 
-Lemma full_name_qualified c : module_level c = true -> full_name c = qualified_tag c.
+(* the tag written for a class IS its fully qualified name (it was module + __name__ before 70c605d) *)
+Lemma full_name_qualified c : full_name c = qualified_tag c.
+Proof. rewrite full_name_split. reflexivity. Qed.
+
+Lemma base_to_json_not_local c :
+  is_local c = false ->
+  base_to_json (c_mod c) (cname c) (cqualname c) = Return [(JSON_TYPE_NAME, JStr (full_name c))].
+Proof. unfold is_local, LOCALS, base_to_json. intros ->. reflexivity. Qed.
+
+Lemma base_to_json_local c :
+  is_local c = true -> base_to_json (c_mod c) (cname c) (cqualname c) = RaiseJ ClassNotSerializableError.
+Proof. unfold is_local, LOCALS, base_to_json. intros ->. reflexivity. Qed.
+
+(* in the Spec's table a registry resolution carries the deserialiser registered for that class *)
+Lemma spec_registry_inv (Mo C D : Type) fm at_ ic ds (reg : C -> option D) tag c d :
+  resolve_spec Mo C D fm at_ ic ds reg tag = RByRegistry c d -> reg c = Some d.
 Proof.
-  rewrite full_name_split. unfold qualified_tag, cname, module_level.
-  destruct (c_qual c) as [|n [|n' r]]; try discriminate. reflexivity.
+  unfold resolve_spec. destruct tag as [t|]; [|discriminate].
+  destruct (falsy t); [discriminate|]. destruct t; try discriminate.
+  destruct (split_last_dot s) as [[m n]|]; [|discriminate].
+  destruct (negb (module_part_ok m)); [discriminate|].
+  destruct (owner_of Mo C fm at_ ic m) as [o|]; [|discriminate].
+  destruct (at_ o n) as [c'|]; [|discriminate].
+  destruct (negb (ic c')); [discriminate|]. destruct (ds c'); [discriminate|].
+  destruct (reg c') as [d'|] eqn:E; [|discriminate]. intros H. injection H as <- <-. exact E.
 Qed.
 
-(* a document whose tag is the full name of a resolvable class reaches that class / its registered deserialiser *)
+(* a document whose tag is the full name of a class named by its own tag reaches that class / its registered deserialiser *)
 Lemma chain_resolves w c d :
-  cls_ok w c = true -> dict_get d JSON_TYPE_NAME = Some (JStr (full_name c)) ->
+  names_itself w c = true -> dict_get d JSON_TYPE_NAME = Some (JStr (full_name c)) ->
   w_chain w (JObj d) =
   match c_kind c with
   | KSer => Return (FJ_CallClass c)
@@ -60,27 +79,16 @@ Lemma chain_resolves w c d :
   | KPlain => RaiseJ ClassNotDeserializableError
   end.
 Proof.
-  unfold cls_ok. rewrite !andb_true_iff. intros [[[Hml Hvm] Hns] Hlk] Htag.
-  destruct (lookup w (c_mod c) (cname c)) as [c'|] eqn:El; [|discriminate].
-  apply cls_eqb_eq in Hlk. subst c'.
-  change (w_chain w) with (chain str cls cls (w_import w) (w_getattr w) w_is_type w_issubclass w_deserializer).
+  unfold names_itself. intros Hn Htag.
+  unfold w_chain.
   rewrite (chain_obj str cls cls _ _ _ _ _ (w_import_documented w) (w_getattr_documented w) w_issubclass_documented).
-  unfold tag_of. rewrite Htag. unfold chain_spec, resolve_spec.
-  rewrite full_name_split.
-  assert (Hf : falsy (JStr (c_mod c ++ 46 :: cname c)) = false).
-  { destruct (c_mod c); reflexivity. }
-  rewrite Hf. rewrite split_last_dot_rsplit1, (rsplit1_app 46 _ _ Hns).
-  assert (Hm : module_part_ok (c_mod c) = true).
-  { unfold valid_module_name in Hvm. unfold module_part_ok. exact Hvm. }
-  rewrite Hm. simpl negb. cbv iota.
-  assert (Hi : view_module str (w_import w) (c_mod c) = Some (c_mod c)).
-  { unfold view_module, w_import. destruct (c_mod c) as [|x s] eqn:Em; [discriminate|].
-    unfold valid_module_name in Hvm. unfold str_startswith. rewrite andb_true_r.
-    unfold DOT in *. rewrite Z.eqb_sym. apply negb_true_iff in Hvm. rewrite Hvm.
-    rewrite <- Em in El. rewrite <- Em. rewrite (lookup_module_exists _ _ _ _ El). reflexivity. }
-  rewrite Hi. unfold view_attr, w_getattr. rewrite El. unfold w_is_type. simpl negb. cbv iota.
-  unfold view_subclass, w_issubclass, w_deserializer, outcome_of.
-  destruct (c_kind c); reflexivity.
+  unfold tag_of. rewrite Htag.
+  change (chain_spec str cls cls (w_import w) (w_getattr w) w_is_type w_issubclass w_deserializer (Some (JStr (full_name c))))
+    with (w_table w (Some (JStr (full_name c)))).
+  destruct (w_table w (Some (JStr (full_name c)))) as [c'|c' d'|e] eqn:Et; [| |discriminate].
+  - apply andb_true_iff in Hn as [H1 H2]. apply cls_eqb_eq in H1. apply kind_eqb_eq in H2. subst c'. rewrite H2. reflexivity.
+  - apply andb_true_iff in Hn as [H1 H2]. apply cls_eqb_eq in H1. apply kind_eqb_eq in H2. subst c'. rewrite H2.
+    unfold w_table in Et. apply spec_registry_inv in Et. unfold w_deserializer in Et. rewrite H2 in Et. simpl in Et. injection Et as <-. reflexivity.
 Qed.
 
 (* ---- sequencing *)
@@ -101,7 +109,7 @@ Section Proofs.
   (* the per-class round-trip hypotheses on user code *)
   Definition user_round_trip : Prop :=
     forall c own kj, c_kind c = KSer ->
-      usplit c (base_to_json_fields (c_mod c) (cname c) (cqualname c) ++ ufields c own kj) = Some (own, kj).
+      usplit c ((JSON_TYPE_NAME, JStr (full_name c)) :: ufields c own kj) = Some (own, kj).
   Definition registered_round_trip : Prop :=
     forall t p, c_kind t = KReg ->
       rdeser t (rser t p) = Some p /\ dict_get (rser t p) JSON_TYPE_NAME = Some (JStr (full_name t)).
@@ -116,6 +124,37 @@ Section Proofs.
   Definition rt (v : value P) : Prop :=
     exists j, to_json v = Return j /\ forall fuel, (value_depth v <= fuel)%nat -> from_json fuel j = Some (Return v).
   Definition ok (v : value P) : Prop := in_grammar v = true /\ Forall (fun c => cls_ok w c = true) (objects v).
+
+  Lemma to_json_ser c own kids kj :
+    c_kind c = KSer -> is_local c = false -> sequence (map to_json kids) = Return kj ->
+    to_json (VObj c own kids) = Return (JObj ((JSON_TYPE_NAME, JStr (full_name c)) :: ufields c own kj)).
+  Proof.
+    intros Ek Hl Hkj.
+    assert (Hd : dispatch P (VObj c own kids) = Return TJ_CallMethod).
+    { unfold dispatch, to_json_dispatch. simpl. rewrite Ek. reflexivity. }
+    simpl. rewrite Hd, (base_to_json_not_local c Hl), Hkj. reflexivity.
+  Qed.
+
+  Lemma to_json_ser_local c own kids :
+    c_kind c = KSer -> is_local c = true -> to_json (VObj c own kids) = RaiseJ ClassNotSerializableError.
+  Proof.
+    intros Ek Hl.
+    assert (Hd : dispatch P (VObj c own kids) = Return TJ_CallMethod).
+    { unfold dispatch, to_json_dispatch. simpl. rewrite Ek. reflexivity. }
+    simpl. rewrite Hd, (base_to_json_local c Hl). reflexivity.
+  Qed.
+
+  Lemma to_json_reg c own :
+    c_kind c = KReg -> to_json (VObj c own []) = Return (JObj (rser c own)).
+  Proof.
+    intros Ek.
+    assert (Hd : dispatch P (VObj c own []) = Return (TJ_CallSer c)).
+    { unfold dispatch, to_json_dispatch. simpl. rewrite Ek. reflexivity. }
+    simpl. rewrite Hd. reflexivity.
+  Qed.
+
+  Lemma cls_ok_parts c : cls_ok w c = true -> is_local c = false /\ names_itself w c = true.
+  Proof. unfold cls_ok. rewrite andb_true_iff, negb_true_iff. tauto. Qed.
 
   Lemma ok_list l : in_grammar (VList l) = true -> Forall (fun c => cls_ok w c = true) (objects (VList l)) -> Forall ok l.
   Proof.
@@ -166,28 +205,26 @@ Section Proofs.
           apply andb_true_iff in Hg as [Hx Hl]. apply Forall_app in Hos as [Ho1 Ho2].
           constructor; [split; assumption | apply IHl; assumption]. }
         destruct (rt_list kids (Forall_impl2 (fun x => ok x -> rt x) ok rt kids (fun x HQ HR => HQ HR) IH Hok)) as [kj [Hkj Hfk]].
-        exists (JObj (base_to_json_fields (c_mod c) (cname c) (cqualname c) ++ ufields c own kj)). split.
-        * assert (Hd : dispatch P (VObj c own kids) = Return TJ_CallMethod).
-          { unfold dispatch, to_json_dispatch. simpl. rewrite Ek. reflexivity. }
-          simpl. rewrite Hd, Hkj. reflexivity.
+        destruct (cls_ok_parts c Hc) as [Hnl Hni].
+        exists (JObj ((JSON_TYPE_NAME, JStr (full_name c)) :: ufields c own kj)). split.
+        * apply to_json_ser; assumption.
         * intros [|n] H; [simpl in H; lia|].
-          assert (Htag : dict_get (base_to_json_fields (c_mod c) (cname c) (cqualname c) ++ ufields c own kj) JSON_TYPE_NAME
+          assert (Htag : dict_get ((JSON_TYPE_NAME, JStr (full_name c)) :: ufields c own kj) JSON_TYPE_NAME
                          = Some (JStr (full_name c))) by (simpl; rewrite ?str_eqb_refl; reflexivity).
           pose proof (Huser c own kj Ek) as Hu.
-          remember (base_to_json_fields (c_mod c) (cname c) (cqualname c) ++ ufields c own kj) as d eqn:Ed.
+          remember ((JSON_TYPE_NAME, JStr (full_name c)) :: ufields c own kj) as d eqn:Ed.
           simpl from_json.
-          rewrite (chain_resolves w c d Hc Htag).
+          rewrite (chain_resolves w c d Hni Htag).
           rewrite Ek, Hu. rewrite Hfk; [reflexivity|]. simpl in H. lia.
       + (* registered type *)
         destruct kids as [|k ks]; [|discriminate].
         destruct (Hreg c own Ek) as [Hrd Htag].
+        destruct (cls_ok_parts c Hc) as [Hnl Hni].
         exists (JObj (rser c own)). split.
-        * assert (Hd : dispatch P (VObj c own []) = Return (TJ_CallSer c)).
-          { unfold dispatch, to_json_dispatch. simpl. rewrite Ek. reflexivity. }
-          simpl. rewrite Hd. reflexivity.
+        * apply to_json_reg; assumption.
         * intros [|n] H; [simpl in H; lia|].
           remember (rser c own) as d eqn:Ed.
-          simpl from_json. rewrite (chain_resolves w c d Hc Htag). rewrite Ek, Hrd. reflexivity.
+          simpl from_json. rewrite (chain_resolves w c d Hni Htag). rewrite Ek, Hrd. reflexivity.
   Qed.
 
   Theorem round_trip_ok v fuel :
@@ -205,8 +242,7 @@ Section Proofs.
     exists d, to_json (VObj c own kids) = Return (JObj d) /\ dict_get d JSON_TYPE_NAME = Some (JStr (qualified_tag c)).
   Proof.
     intros Hok. pose proof Hok as [Hg Ho]. simpl in Hg, Ho. inversion Ho as [|c0 os Hc Hos]; subst.
-    assert (Hml : module_level c = true).
-    { unfold cls_ok in Hc. rewrite !andb_true_iff in Hc. tauto. }
+    destruct (cls_ok_parts c Hc) as [Hnl Hni].
     destruct (c_kind c) eqn:Ek; [| |discriminate].
     - assert (Hokk : Forall ok kids).
       { clear - Hg Hos. induction kids as [|x l IHl]; simpl in *; [constructor|].
@@ -214,25 +250,29 @@ Section Proofs.
         constructor; [split; assumption | apply IHl; assumption]. }
       assert (Hrt : Forall rt kids) by (eapply Forall_impl; [|exact Hokk]; apply round_trip_value).
       destruct (rt_list kids Hrt) as [kj [Hkj _]].
-      exists (base_to_json_fields (c_mod c) (cname c) (cqualname c) ++ ufields c own kj). split.
-      + assert (Hd : dispatch P (VObj c own kids) = Return TJ_CallMethod).
-        { unfold dispatch, to_json_dispatch. simpl. rewrite Ek. reflexivity. }
-        simpl. rewrite Hd, Hkj. reflexivity.
-      + simpl. rewrite ?str_eqb_refl. rewrite <- (full_name_qualified c Hml). reflexivity.
+      exists ((JSON_TYPE_NAME, JStr (full_name c)) :: ufields c own kj). split.
+      + apply to_json_ser; assumption.
+      + simpl. rewrite ?str_eqb_refl. rewrite <- (full_name_qualified c). reflexivity.
     - destruct kids as [|k ks]; [|discriminate].
       destruct (Hreg c own Ek) as [_ Htag].
       exists (rser c own). split.
-      + assert (Hd : dispatch P (VObj c own []) = Return (TJ_CallSer c)).
-        { unfold dispatch, to_json_dispatch. simpl. rewrite Ek. reflexivity. }
-        simpl. rewrite Hd. reflexivity.
-      + rewrite Htag, (full_name_qualified c Hml). reflexivity.
+      + apply to_json_reg; assumption.
+      + rewrite Htag, (full_name_qualified c). reflexivity.
   Qed.
+
+  (* outside F: an instance of a function-local serialiser class is refused when it is serialised *)
+  Lemma local_class_refused c own kids fuel :
+    c_kind c = KSer -> is_local c = true ->
+    round_trip P ufields usplit rser rdeser w fuel (VObj c own kids) = Some (RaiseJ ClassNotSerializableError).
+  Proof. intros Ek Hl. unfold round_trip. rewrite (to_json_ser_local c own kids Ek Hl). reflexivity. Qed.
 End Proofs.
+
+(* ---- the sample user code of the correspondence harness meets the hypotheses *)
 
 (* ---- the sample user code of the correspondence harness meets the hypotheses *)
 Lemma sample_user_round_trip : user_round_trip jv s_ufields s_usplit.
 Proof.
-  intros c own kj _. unfold s_usplit, s_ufields, base_to_json_fields.
+  intros c own kj _. unfold s_usplit, s_ufields.
   destruct (Z.even (c_id c)); reflexivity.
 Qed.
 Lemma sample_registered_round_trip : registered_round_trip jv s_rser s_rdeser.
@@ -248,38 +288,46 @@ Theorem sample_round_trip w v fuel :
   round_trip jv s_ufields s_usplit s_rser s_rdeser w fuel v = Some (Return v).
 Proof. apply round_trip_ok; [exact sample_user_round_trip | exact sample_registered_round_trip]. Qed.
 
-(* ---- outside F: a serialiser class nested in another class (known finding C18-a) *)
+(* ---- regression examples for the former finding C18-a (fixed by 70c605d): a serialiser class nested in another class *)
 Definition S_MOD : str := [109].                                  (* module "m" *)
 Definition c_outer : cls := {| c_mod := S_MOD; c_qual := [[79]]; c_kind := KPlain; c_id := 1 |}.            (* m.O *)
 Definition c_inner : cls := {| c_mod := S_MOD; c_qual := [[79]; [73]]; c_kind := KSer; c_id := 2 |}.       (* m.O.I *)
 Definition c_shadow : cls := {| c_mod := S_MOD; c_qual := [[73]]; c_kind := KSer; c_id := 4 |}.            (* m.I *)
 Definition v_inner : value jv := VObj c_inner (JInt 3) [].
 
-Lemma nested_class_not_found :
-  in_grammar v_inner = true /\
-  round_trip jv s_ufields s_usplit s_rser s_rdeser [c_outer; c_inner] 5 v_inner = Some (RaiseJ ClassNotFoundError).
+Lemma nested_class_round_trips :
+  value_ok [c_outer; c_inner] v_inner = true /\
+  round_trip jv s_ufields s_usplit s_rser s_rdeser [c_outer; c_inner] 5 v_inner = Some (Return v_inner).
 Proof. split; vm_compute; reflexivity. Qed.
 
-Lemma nested_class_wrong_type :
-  in_grammar v_inner = true /\
-  round_trip jv s_ufields s_usplit s_rser s_rdeser [c_outer; c_inner; c_shadow] 5 v_inner
-  = Some (Return (VObj c_shadow (JInt 3) [])).
+Lemma nested_class_not_shadowed :
+  value_ok [c_outer; c_inner; c_shadow] v_inner = true /\
+  round_trip jv s_ufields s_usplit s_rser s_rdeser [c_outer; c_inner; c_shadow] 5 v_inner = Some (Return v_inner).
 Proof. split; vm_compute; reflexivity. Qed.
 
-Lemma nested_class_tag_not_qualified :
+Lemma nested_class_tag_qualified :
   exists d, to_json jv s_ufields s_rser v_inner = Return (JObj d) /\
-            dict_get d JSON_TYPE_NAME = Some (JStr [109; 46; 73]) /\ qualified_tag c_inner = [109; 46; 79; 46; 73].
+            dict_get d JSON_TYPE_NAME = Some (JStr [109; 46; 79; 46; 73]) /\ qualified_tag c_inner = [109; 46; 79; 46; 73].
 Proof. eexists. split; [vm_compute; reflexivity|]. split; reflexivity. Qed.
 
-(* non-vacuity material: a world with a subclass chain in a dotted module and a registered type *)
+(* ---- outside F: a serialiser class defined inside a function (qualified name "f.<locals>.L") -- known finding C18-b *)
+Definition c_local : cls :=
+  {| c_mod := S_MOD; c_qual := [[102]; [60; 108; 111; 99; 97; 108; 115; 62]; [76]]; c_kind := KSer; c_id := 6 |}.
+Definition v_local : value jv := VObj c_local (JInt 3) [].
+Lemma local_class_not_serializable :
+  in_grammar v_local = true /\
+  round_trip jv s_ufields s_usplit s_rser s_rdeser [c_local] 5 v_local = Some (RaiseJ ClassNotSerializableError).
+Proof. split; vm_compute; reflexivity. Qed.
+
+(* non-vacuity material: a world with a subclass chain in a dotted module, a nested class and a registered type *)
 Definition S_PKG : str := [112; 46; 113].                          (* module "p.q" *)
 Definition c_a : cls := {| c_mod := S_PKG; c_qual := [[65]]; c_kind := KSer; c_id := 10 |}.
 Definition c_b : cls := {| c_mod := S_PKG; c_qual := [[66]]; c_kind := KSer; c_id := 11 |}.
+Definition c_n : cls := {| c_mod := S_PKG; c_qual := [[65]; [78]]; c_kind := KSer; c_id := 13 |}.       (* p.q.A.N *)
 Definition c_u : cls := {| c_mod := [117]; c_qual := [[85]]; c_kind := KReg; c_id := 12 |}.
-Definition w_sample : world := [c_a; c_b; c_u].
+Definition w_sample : world := [c_a; c_b; c_n; c_u].
 Definition v_sample : value jv :=
-  VList [VObj c_a (JInt 1) [VObj c_b (JStr [233]) [VList []; VNone]; VObj c_u (JStr [48]) []]; VInt (2 ^ 70); VFloat 9218868437227405312; VList [VList []]].
-
+  VList [VObj c_a (JInt 1) [VObj c_b (JStr [233]) [VList []; VNone; VObj c_n JNull []]; VObj c_u (JStr [48]) []]; VInt (2 ^ 70); VFloat 9218868437227405312; VList [VList []]].
 (* ---- the correspondence instance: on F (and payloads without dicts) the model computes exactly the Spec's answer,
    tags included -- so a case inside F where implementation = Spec but model differs cannot occur *)
 Fixpoint jv_plain (j : jv) : bool :=
@@ -344,24 +392,23 @@ Section SampleTags.
       unfold expected_tags. simpl objects. rewrite map_flat_map. reflexivity.
     - (* object *)
       pose proof Hok as [Hg Ho]. simpl in Hg, Ho. inversion Ho as [|c0 os Hc Hos]; subst.
-      assert (Hml : module_level c = true).
-      { unfold cls_ok in Hc. rewrite !andb_true_iff in Hc. tauto. }
+      destruct (cls_ok_parts w c Hc) as [Hnl Hni].
       simpl in Hp. apply andb_true_iff in Hp as [Hpo Hpk].
       pose proof (jv_plain_no_tags own Hpo) as Hown.
       unfold expected_tags. simpl objects. simpl map. rewrite map_flat_map.
-      rewrite <- (full_name_qualified c Hml).
+      rewrite <- (full_name_qualified c).
       destruct (c_kind c) eqn:Ek; [| |discriminate].
-      + assert (Hd : dispatch jv (VObj c own kids) = Return TJ_CallMethod).
-        { unfold dispatch, to_json_dispatch. simpl. rewrite Ek. reflexivity. }
-        simpl in Hj. rewrite Hd in Hj.
-        destruct (sequence (map tj kids)) as [kj| |] eqn:Es; try discriminate. injection Hj as <-.
-        pose proof (tags_list kids IH (ok_kids c own kids Hok Ek) Hpk kj Es) as Hk.
+      + pose proof (ok_kids c own kids Hok Ek) as Hokk.
+        assert (Hrt : Forall (rt jv s_ufields s_usplit s_rser s_rdeser w) kids).
+        { eapply Forall_impl; [|exact Hokk].
+          apply (round_trip_value jv s_ufields s_usplit s_rser s_rdeser sample_user_round_trip sample_registered_round_trip w). }
+        destruct (rt_list jv s_ufields s_usplit s_rser s_rdeser w kids Hrt) as [kj [Es _]].
+        rewrite (to_json_ser jv s_ufields s_rser c own kids kj Ek Hnl Es) in Hj. injection Hj as <-.
+        pose proof (tags_list kids IH Hokk Hpk kj Es) as Hk.
         unfold s_ufields. destruct (Z.even (c_id c)); simpl; rewrite ?str_eqb_refl; simpl;
           rewrite Hown, ?app_nil_r; simpl; rewrite Hk; reflexivity.
       + destruct kids as [|k ks]; [|discriminate].
-        assert (Hd : dispatch jv (VObj c own []) = Return (TJ_CallSer c)).
-        { unfold dispatch, to_json_dispatch. simpl. rewrite Ek. reflexivity. }
-        simpl in Hj. rewrite Hd in Hj. injection Hj as <-.
+        rewrite (to_json_reg jv s_ufields s_rser c own Ek) in Hj. injection Hj as <-.
         unfold s_rser. simpl. rewrite ?str_eqb_refl. simpl. rewrite Hown. reflexivity.
   Qed.
 
@@ -378,31 +425,234 @@ Section SampleTags.
   Qed.
 End SampleTags.
 
-(* ---- F in words: in a world where no two module-level classes of one module share a __name__, a class satisfies
-   [cls_ok] as soon as it is defined there at module level under a well-formed name *)
-Lemma strs_eqb_refl a : strs_eqb a a = true.
-Proof. induction a as [|x a IH]; simpl; [reflexivity|]. now rewrite str_eqb_refl, IH. Qed.
-Lemma cls_eqb_refl c : cls_eqb c c = true.
-Proof. unfold cls_eqb. rewrite str_eqb_refl, strs_eqb_refl, Z.eqb_refl. destruct (c_kind c); reflexivity. Qed.
 
+(* ---- F in words: structural conditions under which a class is named by its own tag.
+   World without two classes of one module under one qualified name; the class is defined in it; its module name is
+   well-formed; the names on its qualified path are dot-free; every enclosing class is defined in the world; and
+   NO MODULE IS NAMED LIKE A CLASS PATH (module "m.Outer" next to class Outer of module m would be imported instead). *)
 Definition unique_names (w : world) : Prop :=
-  forall c c', In c w -> In c' w -> module_level c = true -> module_level c' = true ->
-    c_mod c = c_mod c' -> cname c = cname c' -> c = c'.
+  forall c c', In c w -> In c' w -> c_mod c = c_mod c' -> c_qual c = c_qual c' -> c = c'.
+Definition enclosing_classes_defined (w : world) (c : cls) : Prop :=
+  forall j, (0 < j < length (c_qual c))%nat ->
+    exists c', In c' w /\ c_mod c' = c_mod c /\ c_qual c' = firstn j (c_qual c).
+Definition no_module_named_like_class_path (w : world) (c : cls) : Prop :=
+  forall j, (0 < j < length (c_qual c))%nat ->
+    module_exists w (c_mod c ++ 46 :: join_dots (firstn j (c_qual c))) = false.
+Definition dot_free (l : list str) : Prop := Forall (fun x => no_sep 46 x = true) l.
 
-Lemma lookup_defined w c :
-  unique_names w -> In c w -> module_level c = true -> lookup w (c_mod c) (cname c) = Some c.
+Lemma lookup_defined w c : unique_names w -> In c w -> lookup w (c_mod c) (c_qual c) = Some c.
 Proof.
-  intros Hu Hin Hml. unfold lookup.
-  destruct (find _ w) as [c'|] eqn:E.
-  - apply find_some in E as [Hin' Hp]. rewrite !andb_true_iff in Hp. destruct Hp as [[Hml' Hm] Hn].
-    apply str_eqb_eq in Hm. apply str_eqb_eq in Hn. f_equal. symmetry. apply (Hu c c'); auto.
-  - exfalso. pose proof (find_none _ _ E c Hin) as Hn. simpl in Hn.
-    rewrite Hml, !str_eqb_refl in Hn. discriminate.
+  intros Hu Hin. unfold lookup. destruct (find _ w) as [c'|] eqn:E.
+  - apply find_some in E as [Hin' Hp]. apply andb_true_iff in Hp as [Hm Hq].
+    apply str_eqb_eq in Hm. apply strs_eqb_eq in Hq. f_equal. apply Hu; auto.
+  - exfalso. pose proof (find_none _ _ E c Hin) as Hn. simpl in Hn. rewrite str_eqb_refl, strs_eqb_refl in Hn. discriminate.
 Qed.
 
-Lemma cls_ok_defined w c :
-  unique_names w -> In c w -> module_level c = true -> valid_module_name (c_mod c) = true -> no_sep DOT (cname c) = true ->
-  cls_ok w c = true.
+Lemma module_exists_in w c : In c w -> module_exists w (c_mod c) = true.
+Proof. intros H. apply existsb_exists. exists c. split; [exact H | apply str_eqb_refl]. Qed.
+
+(* string facts *)
+Lemma split_dots_app_dot p r : no_sep 46 p = true -> split_dots (p ++ 46 :: r) = p :: split_dots r.
 Proof.
-  intros Hu Hin Hml Hv Hn. unfold cls_ok. rewrite Hml, Hv, Hn, (lookup_defined w c Hu Hin Hml), cls_eqb_refl. reflexivity.
+  induction p as [|c p IH]; intros H; [reflexivity|].
+  simpl in H. apply andb_true_iff in H as [Hc Hp]. apply negb_true_iff in Hc.
+  simpl. rewrite Hc, (IH Hp). reflexivity.
+Qed.
+Lemma split_dots_dot_free_one p : no_sep 46 p = true -> split_dots p = [p].
+Proof.
+  induction p as [|c p IH]; intros H; [reflexivity|].
+  simpl in H. apply andb_true_iff in H as [Hc Hp]. apply negb_true_iff in Hc.
+  simpl. rewrite Hc, (IH Hp). reflexivity.
+Qed.
+Lemma split_join_dots l : dot_free l -> l <> [] -> split_dots (join_dots l) = l.
+Proof.
+  induction 1 as [|p l Hp Hl IH]; intros Hn; [contradiction|].
+  destruct l as [|p2 l2]; [apply split_dots_dot_free_one; exact Hp|].
+  change (join_dots (p :: p2 :: l2)) with (p ++ 46 :: join_dots (p2 :: l2)).
+  rewrite (split_dots_app_dot _ _ Hp), IH by discriminate. reflexivity.
+Qed.
+Lemma split_dots_dot_free s : dot_free (split_dots s).
+Proof.
+  induction s as [|c r IH]; [repeat constructor|]. simpl.
+  destruct (Z.eqb c 46) eqn:E.
+  - constructor; [reflexivity | exact IH].
+  - destruct (split_dots r) as [|h t]; [repeat constructor; simpl; now rewrite E|].
+    inversion IH; subst. constructor; [simpl; rewrite E; assumption | assumption].
+Qed.
+Lemma join_dots_app a b : a <> [] -> b <> [] -> join_dots (a ++ b) = join_dots a ++ 46 :: join_dots b.
+Proof.
+  induction a as [|x a IH]; intros Ha Hb; [contradiction|].
+  destruct a as [|y a'].
+  - simpl. destruct b; [contradiction|reflexivity].
+  - change ((x :: y :: a') ++ b) with (x :: ((y :: a') ++ b)).
+    rewrite (join_dots_cons_app x ((y :: a') ++ b)) by (simpl; discriminate).
+    rewrite IH by (auto; discriminate). rewrite (join_dots_cons_app x (y :: a')) by discriminate.
+    rewrite <- app_assoc. reflexivity.
+Qed.
+Lemma dot_free_app a b : dot_free a -> dot_free b -> dot_free (a ++ b).
+Proof. intros; apply Forall_app; split; assumption. Qed.
+
+Section Fragment.
+  Variable w : world.
+  Variable c : cls.
+  Hypothesis Hu : unique_names w.
+  Hypothesis Hin : In c w.
+  Hypothesis Hmod : module_part_ok (c_mod c) = true.
+  Hypothesis Hdf : dot_free (c_qual c).
+  Hypothesis Henc : enclosing_classes_defined w c.
+  Hypothesis Hnm : no_module_named_like_class_path w c.
+  Variables (pre : list str) (n : str).
+  Hypothesis Hq : c_qual c = pre ++ [n].
+
+  Notation m := (c_mod c).
+  Notation vmod := (view_module str (w_import w)).
+  Notation vattr := (view_attr str cls (w_getattr w)).
+  Let sm := split_dots m.
+  Let names0 := sm ++ pre.
+
+  Lemma m_head : exists c0 r, m = c0 :: r /\ c0 <> 46.
+  Proof.
+    unfold module_part_ok in Hmod. destruct m as [|c0 r]; [discriminate|].
+    exists c0, r. split; [reflexivity|]. apply negb_true_iff, Z.eqb_neq in Hmod. exact Hmod.
+  Qed.
+
+  Lemma sm_nonempty : sm <> [].
+  Proof. apply split_dots_nonempty. Qed.
+
+  Lemma pre_dot_free : dot_free pre /\ no_sep 46 n = true.
+  Proof.
+    unfold dot_free in Hdf. rewrite Hq in Hdf. apply Forall_app in Hdf as [H1 H2]. inversion H2; subst. auto.
+  Qed.
+
+  Lemma names0_ok : dot_free names0 /\ names0 <> [].
+  Proof.
+    split; [apply dot_free_app; [apply split_dots_dot_free | apply pre_dot_free]|].
+    unfold names0. pose proof sm_nonempty. destruct sm; [contradiction|discriminate].
+  Qed.
+
+  (* w_import on a name that starts like m *)
+  Lemma vmod_m : vmod m = Some m.
+  Proof.
+    destruct m_head as [c0 [r [Hm Hc0]]]. unfold view_module, w_import. rewrite Hm.
+    change (str_startswith (c0 :: r) [DOT]) with (Z.eqb DOT c0 && true).
+    assert (E : Z.eqb DOT c0 = false) by (apply Z.eqb_neq; unfold DOT; congruence). rewrite E. simpl andb. cbv iota.
+    rewrite <- Hm, (module_exists_in w c Hin). reflexivity.
+  Qed.
+  Lemma vmod_longer j : (0 < j < length (c_qual c))%nat -> vmod (m ++ 46 :: join_dots (firstn j (c_qual c))) = None.
+  Proof.
+    intros Hj. destruct m_head as [c0 [r [Hm Hc0]]]. unfold view_module, w_import.
+    pose proof (Hnm j Hj) as He. rewrite Hm in *. simpl app.
+    change (str_startswith (c0 :: r ++ 46 :: join_dots (firstn j (c_qual c))) [DOT]) with (Z.eqb DOT c0 && true).
+    assert (E : Z.eqb DOT c0 = false) by (apply Z.eqb_neq; unfold DOT; congruence). rewrite E. simpl andb. cbv iota.
+    simpl app in He. rewrite He. reflexivity.
+  Qed.
+
+  Lemma firstn_pre j : (j <= length pre)%nat -> firstn j (c_qual c) = firstn j pre.
+  Proof. intros Hj. rewrite Hq, firstn_app. replace (j - length pre)%nat with O by lia. simpl. apply app_nil_r. Qed.
+
+  Lemma len_q : length (c_qual c) = S (length pre).
+  Proof. rewrite Hq, app_length. simpl. lia. Qed.
+
+  (* prefixes longer than the module's own names are not importable *)
+  Lemma owner_from_skip j : (j <= length pre)%nat ->
+    owner_from str cls vmod vattr w_is_type names0 (j + length sm) = owner_from str cls vmod vattr w_is_type names0 (length sm).
+  Proof.
+    induction j as [|j IH]; intros Hj; [reflexivity|].
+    change (S j + length sm)%nat with (S (j + length sm)). cbn [owner_from].
+    assert (Hf : firstn (S (j + length sm)) names0 = sm ++ firstn (S j) pre).
+    { unfold names0. rewrite firstn_app. rewrite firstn_all2 by lia.
+      replace (S (j + length sm) - length sm)%nat with (S j) by lia. reflexivity. }
+    rewrite Hf. rewrite join_dots_app.
+    - unfold sm at 1. rewrite join_split_dots. rewrite <- (firstn_pre (S j) Hj).
+      rewrite vmod_longer by (rewrite len_q; lia). apply IH. lia.
+    - apply sm_nonempty.
+    - destruct pre; [simpl in Hj; lia | simpl; discriminate].
+  Qed.
+
+  Lemma owner_from_module : owner_from str cls vmod vattr w_is_type names0 (length sm)
+                            = through_classes str cls vattr w_is_type (OMod m) pre.
+  Proof.
+    pose proof sm_nonempty as Hs. destruct (length sm) as [|l] eqn:El; [destruct sm; [contradiction|discriminate]|].
+    cbn [owner_from]. rewrite <- El.
+    assert (Hf : firstn (length sm) names0 = sm) by (unfold names0; rewrite firstn_app, firstn_all, Nat.sub_diag; simpl; apply app_nil_r).
+    assert (Hk : skipn (length sm) names0 = pre) by (unfold names0; rewrite skipn_app, skipn_all, Nat.sub_diag; reflexivity).
+    rewrite Hf, Hk. unfold sm at 1. rewrite join_split_dots, vmod_m. reflexivity.
+  Qed.
+
+  (* following the enclosing classes *)
+  Definition at_path (o : owner str cls) (p : list str) : Prop :=
+    (o = OMod m /\ p = []) \/ (exists c', o = OCls c' /\ In c' w /\ c_mod c' = m /\ c_qual c' = p /\ p <> []).
+
+  Lemma vattr_step o done x : at_path o done ->
+    forall c', In c' w -> c_mod c' = m -> c_qual c' = done ++ [x] -> vattr o x = Some c'.
+  Proof.
+    intros Ho c' Hin' Hm' Hq'. unfold view_attr, w_getattr.
+    assert (Hl : lookup w m (done ++ [x]) = Some c') by (rewrite <- Hm', <- Hq'; apply lookup_defined; assumption).
+    destruct Ho as [[-> ->]|[c1 [-> [_ [Hm1 [Hq1 _]]]]]].
+    - simpl app in Hl. rewrite Hl. reflexivity.
+    - rewrite Hm1, Hq1, Hl. reflexivity.
+  Qed.
+
+  Lemma walk_enclosing rest : forall done o, done ++ rest = pre -> at_path o done ->
+    exists o', through_classes str cls vattr w_is_type o rest = Some o' /\ at_path o' pre.
+  Proof.
+    induction rest as [|x r IH]; intros done o Hd Ho.
+    - rewrite app_nil_r in Hd. subst done. exists o. split; [reflexivity | exact Ho].
+    - assert (Hj : (0 < S (length done) < length (c_qual c))%nat).
+      { rewrite len_q, <- Hd, app_length. simpl. lia. }
+      destruct (Henc _ Hj) as [c' [Hin' [Hm' Hq']]].
+      assert (Hfq : firstn (S (length done)) (c_qual c) = done ++ [x]).
+      { rewrite Hq, <- Hd, <- app_assoc. rewrite firstn_app, firstn_all2 by lia.
+        replace (S (length done) - length done)%nat with 1%nat by lia. reflexivity. }
+      rewrite Hfq in Hq'.
+      cbn [through_classes]. rewrite (vattr_step o done x Ho c' Hin' Hm' Hq'). unfold w_is_type at 1.
+      apply (IH (done ++ [x]) (OCls c')).
+      + rewrite <- app_assoc. exact Hd.
+      + right. exists c'. repeat split; auto. destruct done; discriminate.
+  Qed.
+
+  Lemma own_tag_resolves : c_kind c <> KPlain -> names_itself w c = true.
+  Proof.
+    intros Hk. unfold names_itself, w_table, resolve_spec.
+    destruct names0_ok as [Hdf0 Hne0]. destruct pre_dot_free as [Hdfp Hn].
+    (* the tag is  join_dots names0 ++ "." ++ n *)
+    assert (Htag : full_name c = join_dots names0 ++ 46 :: n).
+    { rewrite full_name_split. unfold cqualname. rewrite Hq. unfold names0.
+      destruct pre as [|p0 pr] eqn:Ep.
+      - rewrite app_nil_r. unfold sm. rewrite join_split_dots. reflexivity.
+      - rewrite (join_dots_app sm (p0 :: pr)) by (try apply sm_nonempty; discriminate).
+        rewrite (join_dots_app (p0 :: pr) [n]) by discriminate.
+        unfold sm. rewrite join_split_dots, <- app_assoc. reflexivity. }
+    rewrite Htag.
+    destruct m_head as [c0 [r [Hm Hc0]]].
+    assert (Hhead : exists tl, join_dots names0 = c0 :: tl).
+    { unfold names0, sm. rewrite Hm. destruct (split_dots_head c0 r Hc0) as [h [t ->]].
+      simpl app. match goal with |- context [join_dots (_ :: ?X)] => destruct X as [|y ys] end;
+        [exists h | exists (h ++ 46 :: join_dots (y :: ys))]; reflexivity. }
+    destruct Hhead as [tl Htl].
+    assert (Hf : falsy (JStr (join_dots names0 ++ 46 :: n)) = false) by (rewrite Htl; reflexivity).
+    rewrite Hf, split_last_dot_rsplit1, (rsplit1_app 46 _ _ Hn).
+    assert (Hmp : module_part_ok (join_dots names0) = true).
+    { rewrite Htl. unfold module_part_ok. apply negb_true_iff, Z.eqb_neq. exact Hc0. }
+    rewrite Hmp. simpl negb. cbv iota.
+    unfold owner_of. rewrite (split_join_dots names0 Hdf0 Hne0).
+    assert (Hlen : length names0 = (length pre + length sm)%nat) by (unfold names0; rewrite app_length; lia).
+    rewrite Hlen, (owner_from_skip (length pre) (le_n _)), owner_from_module.
+    destruct (walk_enclosing pre [] (OMod m) eq_refl (or_introl (conj eq_refl eq_refl))) as [o' [Hw Hat]].
+    rewrite Hw.
+    rewrite (vattr_step o' pre n Hat c Hin eq_refl Hq).
+    unfold w_is_type. simpl negb. cbv iota.
+    unfold view_subclass, w_issubclass, w_deserializer.
+    destruct (c_kind c); [| |contradiction]; simpl; rewrite cls_eqb_refl; reflexivity.
+  Qed.
+End Fragment.
+
+Theorem named_classes_are_ok w c :
+  unique_names w -> In c w -> module_part_ok (c_mod c) = true -> dot_free (c_qual c) -> c_qual c <> [] ->
+  enclosing_classes_defined w c -> no_module_named_like_class_path w c ->
+  c_kind c <> KPlain -> is_local c = false -> cls_ok w c = true.
+Proof.
+  intros Hu Hin Hm Hd Hne He Hn Hk Hl.
+  destruct (exists_last Hne) as [pre [n Hq]].
+  unfold cls_ok. rewrite Hl. simpl. eapply own_tag_resolves; eauto.
 Qed.
